@@ -121,7 +121,12 @@ def rand_simple(rng):
     if k == "call":
         return ["call", rng.choice(CALLS)]
     if k == "var":
-        return ["var", rng.choice("xyz"), rng.choice(["inc", "dbl", "neg", "half"])]
+        v = ["var", rng.choice("xyz"), rng.choice(["inc", "dbl", "neg", "half"])]
+        if rng.random() < 0.2:
+            # attributes named like methods of elements are still plain attributes
+            v.append(rng.choice([{"run": 2024}, {"fill": 7}, {"compute": "c"}, {"request": 0},
+                                 {"run": 0, "fill_into": 1}]))
+        return v
     return ["filter", rng.choice(PREDN)]
 
 
@@ -787,6 +792,8 @@ def matrix_cases():
                     yield {"k": "adapter", "adapter": "FillRequest", "kind": kind, "fill": f,
                            "request": q, "reset": reset, "reset_name": rname}
     yield {"k": "run_none_function"}
+    for ad in ("Call", "Run", "Sequence", "FillSeq", "Source-tail"):
+        yield {"k": "class_as_function", "adapter": ad}
 
 
 def cm(el, name):
@@ -1131,6 +1138,49 @@ def run_case(r, obs):
         run_userstop(r, obs)
     elif k == "adapter":
         run_adapter(r, obs)
+    elif k == "class_as_function":
+        # a class used as a conversion function (calling it makes an instance), whose instances
+        # are callable themselves: the adapters call the class
+        import lena.core
+        obs.nontrivial = True
+
+        class Energy(object):
+            def __init__(self, v):
+                self.v = v
+
+            def __call__(self, factor):
+                return ("instance called", self.v, factor)
+
+            def __eq__(self, other):
+                return isinstance(other, Energy) and other.v == self.v
+
+            __hash__ = None
+
+            def __repr__(self):
+                return "Energy(%r)" % (self.v,)
+        ad = r["adapter"]
+        try:
+            if ad == "Call":
+                got = [lena.core.Call(Energy)(v) for v in (1, 2)]
+            elif ad == "Run":
+                got = list(lena.core.Run(Energy).run(iter([1, 2])))
+            elif ad == "Sequence":
+                got = list(lena.core.Sequence(Energy).run(iter([1, 2])))
+            elif ad == "FillSeq":
+                col = Collect()
+                fs = lena.core.FillSeq(Energy, col)
+                for v in (1, 2):
+                    fs.fill(v)
+                got = col.got
+            else:
+                got = list(lena.core.Source([1, 2], Energy)())
+        except Exception as e:  # pylint: disable=broad-except
+            got = "raised %r" % (e,)
+        obs.count("matrix_accepted")
+        obs.check(got == [Energy(1), Energy(2)],
+                  "adapter-call-differs-from-wrapped-method:%s:class-with-callable-instances" % ad,
+                  "%s around a class (a conversion function whose instances are callable) over "
+                  "[1, 2] gives %r, calling the class gives %r" % (ad, got, [Energy(1), Energy(2)]))
     elif k == "run_none_function":
         import lena.core
         obs.nontrivial = True
